@@ -147,6 +147,8 @@ class Prov:
             if "bytes" in op:
                 return ("bytes", tuple(op["bytes"]))
             path = op.get("path")
+            if op.get("static"):
+                return ("static", op["static"], op.get("ty"))
             if op.get("refs"):
                 # a promoted constant: name it after the named constants its body refers to
                 path = "&" + "+".join(op["refs"])
@@ -275,6 +277,8 @@ class Prov:
             return ("unknown", "setdiscr")
         t = b["term"]
         if t["k"] == "call":
+            if t.get("const_result") is not None:
+                return ("const", t["const_result"], (t.get("callee") or "") + "::<" + str(t.get("generic", "")) + ">", "usize")
             args = tuple(self.operand(a, d, depth + 1, seen) for a in t["args"])
             return ("call", call_name(t), args, bb)
         if t["k"] == "asm":
